@@ -1,0 +1,16 @@
+//go:build verif
+
+package edwards25519
+
+// Verification hook (build tag verif only): put the lazily built base point tables
+// back into their never-used state, so that a checker can explore first use more than
+// once per process. The zero states are captured before anything can have used them.
+var (
+	verifZeroTable    = basepointTablePrecomp
+	verifZeroNafTable = basepointNafTablePrecomp
+)
+
+func VerifResetTables() {
+	basepointTablePrecomp = verifZeroTable
+	basepointNafTablePrecomp = verifZeroNafTable
+}
